@@ -13,14 +13,22 @@ CFG = {
                   "every select once Stop was called, exit is absorbing, and without further producer offers at most "
                   "cap+1 other worker steps are possible (Go's select picks ready clauses at random, so termination is "
                   "with probability 1, not under every schedule).",
-    "lean_props": ["BtcwVerif.Props.C18", "BtcwVerif.Props.C18Loops"],
-    "engines": ["queue", "btcdnotif"],
-    "extractors": [{"name": "queue", "out": "QueueGen.lean"}, {"name": "notifloop", "out": "NotifLoopGen.lean"}],
+    "lean_props": ["BtcwVerif.Props.C18", "BtcwVerif.Props.C18Loops", "BtcwVerif.Props.C18Start"],
+    "engines": ["queue", "btcdnotif", "bitcoindnotif"],
+    "extractors": [{"name": "queue", "out": "QueueGen.lean"}, {"name": "notifloop", "out": "NotifLoopGen.lean"},
+                   {"name": "queuestart", "out": "QueueStartGen.lean"}],
     "trusted_base": COMMON_TB + [
         "the table interpreter Queue.wstep in BtcwVerif/Model/Queue.lean as semantics of Go select/channels/container-list "
         "(unbuffered chanIn, buffered chanOut incl. capacity 0 rendez-vous, closed quit channel, default clause)",
         "the extractor harness/cmd/vxextract/queue.go (go/ast) producing Gen/QueueGen.lean; tied by C18_generated_table (decide)",
         "the Go runtime: scheduler, select fairness, channel implementation, container/list",
+        "the extractor harness/cmd/vxextract/queuestart.go (go/ast, syntactic: receivers and parameters are resolved to "
+        "their struct type, any other base of a guard-field selector is attributed conservatively to every guard of that "
+        "name) producing Gen/QueueStartGen.lean; the abstraction of a guarded Start in Model/QueueStart.lean (gstep) and "
+        "the hand-written multi-worker step function Model/QueueTwo.lean used for the two-worker witnesses (checked "
+        "against the one-worker model on a closed schedule: C18_two_model_one_worker_agrees)",
+        "engine bitcoindnotif: the in-process fake bitcoind (HTTP JSON-RPC: getblockhash, getblockheader, "
+        "getblockchaininfo incl. the RPC_IN_WARMUP error, getnetworkinfo) that feeds the real chain.BitcoindClient",
         "btcd.go / neutrino.go handler loops (their own slice queue, not ConcurrentQueue): hand model "
         "BtcwVerif/Model/NotifLoop.lean tied by the idiom-recognising extractor harness/cmd/vxextract/notifloop.go "
         "(C18_loops_generated, decide); the btcd.go loop is additionally run for real (engine btcdnotif: real "
@@ -28,6 +36,12 @@ CFG = {
         "(needs a neutrino chain service) - its clause table differs from btcd's only by the log-only rescanErr clause",
     ],
     "assumptions": [
+        "one worker goroutine per queue, i.e. (*ConcurrentQueue).Start is called at most once per instance: a caller-side "
+        "obligation, discharged for the current source by C18_generated_queue_started_once (facts re-extracted from "
+        "chain/*.go by harness/cmd/vxextract/queuestart.go: the only call site, (*BitcoindClient).Start, is behind the "
+        "`started` compare-and-swap and nothing in the package re-opens that guard) + C18_guarded_start_at_most_one_worker; "
+        "C18_two_workers_reorder / C18_two_workers_duplicate show the property is false with two workers; engine "
+        "bitcoindnotif runs the retry-after-failed-Start scenario on a real chain.BitcoindClient",
         "one consumer (the delivered sequence is what that consumer receives); any number of producers (their sends are "
         "serialised by the unbuffered chanIn, 'accepted' is that serial order)",
         "Stop() is called at most once (a second call panics in Go: close of closed channel)",
